@@ -100,7 +100,9 @@ def _mix(t):
 
 
 def _rk(k):
-    return np.array([[1, 0], [0, np.exp(2j * math.pi / (2 ** int(k)))]])
+    # clamped: a corrupted program may pass an absurd integer, and 2**huge never returns
+    kk = max(-60, min(60, int(k)))
+    return np.array([[1, 0], [0, np.exp(2j * math.pi / (2.0**kk))]])
 
 
 def _ccx():
